@@ -11,8 +11,9 @@
    pool is the hash-consing pool of C02/Model.v with an entry keyed by its class-file bytes.
 
    The instructions of a method enter as: raw bytes (no pool operand, no label), opcode bytes +
-   a constant whose pool index is inserted as u16 + trailing bytes, ldc of a loadable (form chosen
-   by the index), or one of the label-carrying instructions of C02/Model.v.  write_code's loop
+   a constant whose pool index is inserted as u16 + trailing bytes, invokeinterface of a member
+   reference (the count operand is computed by the model of get_arguments_size), ldc of a loadable
+   (form chosen by the index), or one of the label-carrying instructions of C02/Model.v.  write_code's loop
    repeats the pool puts of its first attempt in every later attempt; puts are idempotent
    (C02_pool_put_idem), so the model performs them once, in instruction order, and then runs the
    loop of C02/Model.v on the resulting layout-level body. *)
@@ -93,12 +94,32 @@ Fixpoint bsm_index (l : list bsment) (e : bsment) (k : Z) : option Z :=
 Record wst := { w_pool : pool; w_bsm : list bsment }.
 Definition wst_new : wst := {| w_pool := pool_new; w_bsm := [] |}.
 
-Definition W (A : Type) : Type := wst -> out (A * wst).
-Definition ret {A} (a : A) : W A := fun s => OK (a, s).
+(* Why the writer answered with an error: one constructor per place where the Rust code has `?` on a checked
+   conversion, a `bail!` or a missing label, with the values that decide it (C02_write_class_errors). *)
+Inductive ecause :=
+| EPool (p : pool) (e : pentry)          (* PoolWrite::put: `count.checked_add(inc)` overflows u16 *)
+| EBootstrap (n : Z)                     (* put_bootstrap_method: the table already holds n > 65535 entries *)
+| ECount16 (n : Z)                       (* write_usize_as_u16: a count / length that does not fit u16 *)
+| ECount8 (n : Z)                        (* write_usize_as_u8 *)
+| ELen32 (n : Z)                         (* write_usize_as_u32: an attribute body / unknown attribute longer than u32 *)
+| ENoMax                                 (* write_code: no max_stack / max_locals *)
+| EArgs (desc : bytes)                   (* get_arguments_size: malformed descriptor or more than 255 argument slots *)
+| ECode (es : body) (last : option label)  (* the branch-offset loop of write_code on the lowered body *)
+| ELabel (labs : labmap) (ls : list label) (* a table refers to a label (one of ls) that the final label map does not hold *)
+| EFrameOffset (prev off : Z)            (* a stack map frame not after the previous one *)
+| EFrame (labs : labmap) (f : sframe)    (* a stack map frame that has no class-file form *)
+| EUtf8 (p : pool)                       (* PoolWrite::write: a string of more than 65535 bytes *)
+| EFuel.                                 (* model only: the loop ran out of fuel (excluded by C02_write_terminates) *)
+Inductive wout (A : Type) : Type := WOK (a : A) | WERR (c : ecause) | WPANIC.
+Arguments WOK {A} a. Arguments WERR {A} c. Arguments WPANIC {A}.
+
+Definition W (A : Type) : Type := wst -> wout (A * wst).
+Definition ret {A} (a : A) : W A := fun s => WOK (a, s).
 Definition bind {A B} (m : W A) (f : A -> W B) : W B :=
-  fun s => match m s with OK (a, s') => f a s' | ERR => ERR | PANIC => PANIC end.
-Definition lift_res {A} (r : res A) : W A := fun s => match r with Ok a => OK (a, s) | Err => ERR end.
-Definition lift_out {A} (r : out A) : W A := fun s => match r with OK a => OK (a, s) | ERR => ERR | PANIC => PANIC end.
+  fun s => match m s with WOK (a, s') => f a s' | WERR c => WERR c | WPANIC => WPANIC end.
+Definition lift_res {A} (c : ecause) (r : res A) : W A := fun s => match r with Ok a => WOK (a, s) | Err => WERR c end.
+Definition lift_out {A} (c : ecause) (r : out A) : W A := fun s => match r with OK a => WOK (a, s) | ERR => WERR c | PANIC => WPANIC end.
+Definition werr {A} (c : ecause) : W A := fun _ => WERR c.
 Notation "x <- m ;; f" := (bind m (fun x => f)) (at level 61, m at next level, right associativity).
 Fixpoint mapW {A B} (f : A -> W B) (l : list A) : W (list B) :=
   match l with
@@ -114,8 +135,8 @@ Fixpoint seqW {A} (l : list (W A)) : W (list A) :=
 (* PoolWrite::put *)
 Definition put (c : centry) : W Z :=
   fun s => match pool_put (w_pool s) (mk c) with
-           | Ok (p', i) => OK (i, {| w_pool := p'; w_bsm := w_bsm s |})
-           | Err => ERR
+           | Ok (p', i) => WOK (i, {| w_pool := p'; w_bsm := w_bsm s |})
+           | Err => WERR (EPool (w_pool s) (mk c))
            end.
 (* put_optional: 0 for None *)
 Definition put_opt {A} (f : A -> W Z) (o : option A) : W Z := match o with Some a => f a | None => ret 0 end.
@@ -146,10 +167,10 @@ Definition put_handle (h : handle) : W Z :=
 (* put_bootstrap_method, after the arguments have been put *)
 Definition put_bsm_entry (e : bsment) : W Z :=
   fun s => match bsm_index (w_bsm s) e 0 with
-           | Some i => OK (i, s)
+           | Some i => WOK (i, s)
            | None => let index := zlen (w_bsm s) in
-                     if u16max <? index then ERR
-                     else OK (index, {| w_pool := w_pool s; w_bsm := w_bsm s ++ [e] |})
+                     if u16max <? index then WERR (EBootstrap index)
+                     else WOK (index, {| w_pool := w_pool s; w_bsm := w_bsm s ++ [e] |})
            end.
 
 (* PoolEntry::from_loadable + put; from_dynamic: name_and_type, then the arguments, then the table entry *)
@@ -181,19 +202,19 @@ Definition put_invoke_dynamic (name desc : bytes) (h : handle) (args : list load
 
 (* ---------------- lengths and framing ---------------- *)
 Definition write_usize_as_u8 (n : Z) : res bytes := if 255 <? n then Err else Ok [byte_of n].
-Definition w_u16len (n : Z) : W bytes := lift_res (write_usize_as_u16 n).
-Definition w_u8len (n : Z) : W bytes := lift_res (write_usize_as_u8 n).
+Definition w_u16len (n : Z) : W bytes := lift_res (ECount16 n) (write_usize_as_u16 n).
+Definition w_u8len (n : Z) : W bytes := lift_res (ECount8 n) (write_usize_as_u8 n).
 
 (* write_attribute: the body first (its puts come first), then the name, then the measured length *)
 Definition wattr (name : bytes) (body : W bytes) : W bytes :=
-  b <- body ;; i <- put_utf8 name ;; lift_res (write_attribute i b).
+  b <- body ;; i <- put_utf8 name ;; lift_res (ELen32 (zlen b)) (write_attribute i b).
 (* write_attribute_fix_length followed by the writes of the call site: the name first, the literal
    length, then what the call site writes *)
 Definition wattr_fix (name : bytes) (len : Z) (body : W bytes) : W bytes :=
-  i <- put_utf8 name ;; l <- lift_res (write_usize_as_u32 len) ;; b <- body ;; ret (be16 i ++ l ++ b).
+  i <- put_utf8 name ;; l <- lift_res (ELen32 len) (write_usize_as_u32 len) ;; b <- body ;; ret (be16 i ++ l ++ b).
 (* an unknown attribute / SourceDebugExtension: name, u32 length of the bytes, the bytes *)
 Definition wattr_raw (name : bytes) (content : bytes) : W bytes :=
-  i <- put_utf8 name ;; l <- lift_res (write_usize_as_u32 (zlen content)) ;; ret (be16 i ++ l ++ content).
+  i <- put_utf8 name ;; l <- lift_res (ELen32 (zlen content)) (write_usize_as_u32 (zlen content)) ;; ret (be16 i ++ l ++ content).
 (* `attribute_count += 1; …` per attribute, then write_usize_as_u16(attribute_count) and the buffer *)
 Definition wattrs (l : list (W bytes)) : W bytes :=
   bs <- seqW l ;; c <- w_u16len (zlen l) ;; ret (c ++ concat bs).
@@ -319,12 +340,12 @@ Definition write_target (labs : labmap) (t : target label) : W bytes :=
   | TThrows ty i => ret (ty :: be16 i)
   | TLocalVar ty table =>
       c <- w_u16len (zlen table) ;;
-      es <- mapW (fun e => r <- lift_out (try_get_range labs (fst (fst e), snd (fst e))) ;;
+      es <- mapW (fun e => r <- lift_out (ELabel labs [fst (fst e); snd (fst e)]) (try_get_range labs (fst (fst e), snd (fst e))) ;;
                            ret (be16 (fst r) ++ be16 (snd r) ++ be16 (snd e))) table ;;
       ret (ty :: c ++ concat es)
   | TCatch ty i => ret (ty :: be16 i)
-  | TOffset ty l => p <- lift_out (try_get labs l) ;; ret (ty :: be16 p)
-  | TTypeArgument ty l i => p <- lift_out (try_get labs l) ;; ret (ty :: be16 p ++ u8 i)
+  | TOffset ty l => p <- lift_out (ELabel labs [l]) (try_get labs l) ;; ret (ty :: be16 p)
+  | TTypeArgument ty l i => p <- lift_out (ELabel labs [l]) (try_get labs l) ;; ret (ty :: be16 p ++ u8 i)
   end.
 (* write_type_path: (type_path_kind, type_argument_index) pairs *)
 Definition write_type_path (path : list (Z * Z)) : W bytes :=
@@ -417,6 +438,7 @@ Definition put_iconst (k : iconst) : W Z :=
 Inductive cinsn :=
 | IRaw (bs : bytes)
 | ICp (pre : bytes) (k : iconst) (post : bytes)
+| IIface (r : memberref)           (* invokeinterface: the count operand is computed from the descriptor *)
 | ILdc (l : loadable)
 | IBr (k : kind) (l : label)
 | ITSwitch (d : label) (low high : Z) (ts : list label)
@@ -428,11 +450,86 @@ Definition is_long_or_double (l : loadable) : bool :=
   | LDynamic _ desc _ _ => match desc with c :: _ => (c =? 68)%N || (c =? 74)%N | [] => false end
   | _ => false
   end.
+(* ---- modified UTF-8 of a string of code points, written from JVMS 4.4.7: NUL as C0 80, one / two / three bytes,
+   a supplementary character as a surrogate pair of 2 x 3 bytes; an unpaired surrogate (a JavaStr can hold one) as the
+   three bytes of its code unit.  Used as specification (C02_invokeinterface_count) and to check, on every whole-class
+   case, the strings the harness' own encoder produced (C02/Run.v). ---- *)
+Definition enc3 (c : N) : bytes := [224 + c / 4096; 128 + (c / 64) mod 64; 128 + c mod 64]%N.
+Definition enc_char (c : N) : bytes :=
+  if (c =? 0)%N then [192; 128]%N
+  else if (c <? 128)%N then [c]
+  else if (c <? 2048)%N then [192 + c / 64; 128 + c mod 64]%N
+  else if (c <? 65536)%N then enc3 c
+  else enc3 (55296 + (c - 65536) / 1024) ++ enc3 (56320 + (c - 65536) mod 1024).
+Definition mutf8 (s : list N) : bytes := flat_map enc_char s.
+
+(* ---- MethodDescriptorSlice::get_arguments_size (duke/src/tree/descriptor.rs) ----
+   The descriptor is the modified-UTF-8 form of the JavaStr the Rust code iterates over char by char.
+   `chars.next()` consumes one char: 1 byte (< 0x80), 2 bytes (0xC0..0xDF), 3 bytes (0xE0..0xEF); a
+   supplementary character is ONE char of the JavaStr and a surrogate pair (2 x 3 bytes) in modified
+   UTF-8.  The ASCII characters the code looks for ( ) D J [ L ; are single bytes that never occur
+   inside a multi-byte sequence. *)
+Definition next_char (s : bytes) : option bytes :=
+  match s with
+  | [] => None
+  | c :: r =>
+      if (c <? 128)%N then Some r
+      else if (c <? 224)%N then Some (skipn 1 r)
+      else match r with
+           | c1 :: _ :: r' =>
+               if (c =? 237)%N && (160 <=? c1)%N && (c1 <=? 175)%N then
+                 match r' with
+                 | d0 :: d1 :: _ :: r'' => if (d0 =? 237)%N && (176 <=? d1)%N then Some r'' else Some r'
+                 | _ => Some r'
+                 end
+               else Some r'
+           | _ => Some []
+           end
+  end.
+(* `while chars.next_if_eq(&'[').is_some() { }` *)
+Fixpoint skip_brackets (s : bytes) : bytes :=
+  match s with c :: r => if (c =? 91)%N then skip_brackets r else s | [] => [] end.
+(* `let mut char = chars.next()?; while char != ';' { char = chars.next()?; }` *)
+Fixpoint skip_semi (s : bytes) : option bytes :=
+  match s with [] => None | c :: r => if (c =? 59)%N then Some r else skip_semi r end.
+(* `size.checked_add(n)` on u8 *)
+Definition add_u8 (size n : Z) : res Z := if 255 <? size + n then Err else Ok (size + n).
+(* the loop; every iteration consumes at least one byte: fuel = S (length s) suffices (args_loop_fuel) *)
+Fixpoint args_loop (fuel : nat) (s : bytes) (size : Z) : res Z :=
+  match fuel with
+  | O => Err
+  | S f =>
+      match s with
+      | [] => Err                                             (* chars.next() = None: abrupt ending *)
+      | c :: r =>
+          if (c =? 41)%N then Ok size                          (* ')' *)
+          else if (c =? 68)%N || (c =? 74)%N then              (* 'D' | 'J' *)
+            match add_u8 size 2 with Ok z => args_loop f r z | Err => Err end
+          else
+            match skip_brackets s with
+            | [] => Err
+            | c1 :: r1 =>
+                match (if (c1 =? 76)%N then skip_semi r1 else next_char (c1 :: r1)) with
+                | None => Err
+                | Some r2 => match add_u8 size 1 with Ok z => args_loop f r2 z | Err => Err end
+                end
+            end
+      end
+  end.
+Definition args_size (desc : bytes) : res Z :=
+  match desc with
+  | c :: r => if (c =? 40)%N then args_loop (S (length r)) r 1 else Err
+  | [] => Err
+  end.
+
 (* the pool puts of one instruction, and its layout-level entry *)
 Definition lower_insn (i : cinsn) : W entry :=
   match i with
   | IRaw bs => ret (Plain bs)
   | ICp pre k post => x <- put_iconst k ;; ret (Plain (pre ++ be16 x ++ post))
+  | IIface r =>
+      x <- put_imethodref r ;; n <- lift_res (EArgs (mr_desc r)) (args_size (mr_desc r)) ;;
+      ret (Plain (185%N :: be16 x ++ [byte_of n; 0%N]))
   | ILdc l =>
       x <- put_loadable l ;;
       ret (Plain (match ldc_choose (is_long_or_double l) x with
@@ -480,7 +577,7 @@ Definition opt_count {A B} (f : A -> option B) (l : list A) : Z :=
 
 (* one local variable (type) table entry: the range, then the puts *)
 Definition w_lv (labs : labmap) (v : clocalvar) (d : bytes) : W bytes :=
-  r <- lift_out (try_get_range labs (lv_start v, lv_end v)) ;;
+  r <- lift_out (ELabel labs [lv_start v; lv_end v]) (try_get_range labs (lv_start v, lv_end v)) ;;
   n <- put_utf8 (lv_name v) ;; x <- put_utf8 d ;;
   ret (be16 (fst r) ++ be16 (snd r) ++ be16 n ++ be16 x ++ be16 (lv_index v)).
 
@@ -489,9 +586,9 @@ Fixpoint w_frames (labs : labmap) (prev : option Z) (frs : list (Z * cframe)) : 
   match frs with
   | [] => ret []
   | (off, f) :: r =>
-      d <- lift_out (delta_of prev off) ;;
+      d <- lift_out (EFrameOffset (match prev with Some p => p | None => 0 end) off) (delta_of prev off) ;;
       sf <- lower_frame f ;;
-      b <- lift_out (emit_frame labs d sf) ;;
+      b <- lift_out (EFrame labs sf) (emit_frame labs d sf) ;;
       rest <- w_frames labs (Some off) r ;;
       ret (b :: rest)
   end.
@@ -506,16 +603,16 @@ Fixpoint cframes_at (pos : list Z) (is : list (option label * option cframe * ci
    final attempt (for the statement of the theorems). *)
 Definition write_code_attr (c : ccode) : W (bytes * (bytes * labmap * list Z)) :=
   match c_max c with
-  | None => fun _ => ERR
+  | None => werr ENoMax
   | Some (max_stack, max_locals) =>
       es <- mapW (fun i => e <- lower_insn (snd i) ;; ret (fst (fst i), e)) (c_insns c) ;;
       match wc_loop (S (length es)) [] es (c_last c) with
-      | None => fun _ => ERR                                   (* excluded by C02_write_terminates *)
-      | Some ERR => fun _ => ERR
-      | Some PANIC => fun _ => PANIC
+      | None => werr EFuel                                     (* excluded by C02_write_terminates *)
+      | Some ERR => werr (ECode es (c_last c))
+      | Some PANIC => fun _ => WPANIC
       | Some (OK (w, labs, Wd)) =>
           exc <- wslice16 (fun x =>
-                   t <- lift_out (try_get3 labs (x_start x, x_end x, x_handler x)) ;;
+                   t <- lift_out (ELabel labs [x_start x; x_end x; x_handler x]) (try_get3 labs (x_start x, x_end x, x_handler x)) ;;
                    ct <- put_opt put_class (x_catch x) ;;
                    ret (be16 (fst (fst t)) ++ be16 (snd (fst t)) ++ be16 (snd t) ++ be16 ct)) (c_exceptions c) ;;
           let frs := cframes_at (run_pos Wd 0%N init es) (c_insns c) in
@@ -523,7 +620,7 @@ Definition write_code_attr (c : ccode) : W (bytes * (bytes * labmap * list Z)) :
             nattr frs (fun frs => wattr s_StackMapTable (
                          n <- w_u16len (zlen frs) ;; fb <- w_frames labs None frs ;; ret (n ++ concat fb))) ++
             oattr (c_lines c) (fun l => wattr s_LineNumberTable (
-                         wslice16 (fun e => p <- lift_out (try_get labs (fst e)) ;; ret (be16 p ++ be16 (snd e))) l)) ++
+                         wslice16 (fun e => p <- lift_out (ELabel labs [fst e]) (try_get labs (fst e)) ;; ret (be16 p ++ be16 (snd e))) l)) ++
             match c_locals c with
             | None => []
             | Some lvs =>
@@ -567,7 +664,7 @@ Definition write_method (m : cmethod) : W (bytes * code_aux) :=
           | None => ret ([], None)
           | Some c =>
               (* write_attribute(.., CODE, |w, pool| write_code(..)) *)
-              r <- write_code_attr c ;; i <- put_utf8 s_Code ;; a <- lift_res (write_attribute i (fst r)) ;;
+              r <- write_code_attr c ;; i <- put_utf8 s_Code ;; a <- lift_res (ELen32 (zlen (fst r))) (write_attribute i (fst r)) ;;
               ret ([a], Some (snd r))
           end ;;
   rest <- seqW (oattr (md_exceptions m) (fun l => wattr s_Exceptions (wslice16 (fun x => idx16 (put_class x)) l)) ++
@@ -607,7 +704,7 @@ Record cclass := {
    handles are put now (this can add pool entries but no table entries) *)
 Definition w_bootstrap : list (W bytes) :=
   [fun s => match w_bsm s with
-            | [] => OK ([], s)
+            | [] => WOK ([], s)
             | tbl => wattr s_BootstrapMethods (
                        n <- w_u16len (zlen tbl) ;;
                        es <- mapW (fun e => h <- put_handle (fst e) ;; c <- w_u16len (zlen (snd e)) ;;
@@ -624,7 +721,7 @@ Definition MAGIC : bytes := [202; 254; 186; 190]%N.
 
 Record class_aux := { a_codes : list code_aux; a_bsm : list bsment; a_pool : pool }.
 
-Definition write_class_aux (t : cclass) : out (bytes * class_aux) :=
+Definition write_class_aux (t : cclass) : wout (bytes * class_aux) :=
   let body : W (bytes * list code_aux * list bsment) :=
     this <- put_class (k_name t) ;;
     super <- put_opt put_class (k_super t) ;;
@@ -652,7 +749,7 @@ Definition write_class_aux (t : cclass) : out (bytes * class_aux) :=
       oattr (k_nest_members t) (fun l => wattr s_NestMembers (wslice16 (fun x => idx16 (put_class x)) l)) ++
       oattr (k_permitted t) (fun l => wattr s_PermittedSubclasses (wslice16 (fun x => idx16 (put_class x)) l)) ++
       nattr (k_record t) (fun l => wattr s_Record (wslice16 write_record_component l))) ;;
-    tbl <- (fun s => OK (w_bsm s, s)) ;;          (* pool.bootstrap_methods.take() *)
+    tbl <- (fun s => WOK (w_bsm s, s)) ;;         (* pool.bootstrap_methods.take() *)
     bsm <- seqW w_bootstrap ;;
     unk <- mapW wunknown (k_unknown t) ;;
     let bsm' := filter (fun b => negb (match b with [] => true | _ => false end)) bsm in
@@ -661,14 +758,15 @@ Definition write_class_aux (t : cclass) : out (bytes * class_aux) :=
     ret (be16 (k_access t) ++ be16 this ++ be16 super ++ ifs ++ fields ++ nm ++ concat (map fst methods) ++ c ++ concat all,
          map snd methods, tbl) in
   match body wst_new with
-  | OK ((rest, codes, tbl), s) =>
+  | WOK ((rest, codes, tbl), s) =>
       match pool_bytes (w_pool s) with
-      | Ok pb => OK (MAGIC ++ be16 (k_minor t) ++ be16 (k_major t) ++ pb ++ rest,
-                     {| a_codes := codes; a_bsm := tbl; a_pool := w_pool s |})
-      | Err => ERR
+      | Ok pb => WOK (MAGIC ++ be16 (k_minor t) ++ be16 (k_major t) ++ pb ++ rest,
+                      {| a_codes := codes; a_bsm := tbl; a_pool := w_pool s |})
+      | Err => WERR (EUtf8 (w_pool s))
       end
-  | ERR => ERR
-  | PANIC => PANIC
+  | WERR c => WERR c
+  | WPANIC => WPANIC
   end.
+(* duke::write_class as the harness observes it: bytes, an error, or a panic *)
 Definition write_class (t : cclass) : out bytes :=
-  match write_class_aux t with OK (bs, _) => OK bs | ERR => ERR | PANIC => PANIC end.
+  match write_class_aux t with WOK (bs, _) => OK bs | WERR _ => ERR | WPANIC => PANIC end.
